@@ -642,13 +642,14 @@ def _expand_chunk(args):
     return succ, outcomes, dict(m.stats), m.viol.agg
 
 
-def level_bfs(pool, seed, depth, horizon, chunk=96):
+def level_bfs(pool, seed, depth, horizon, chunk=96, prefix=()):
+    """All histories ``prefix + (up to depth further events)``."""
     m = _model_a(seed, horizon)
     alpha = m.alpha                                    # order permuted by the seed
     base = {ev: i for i, ev in enumerate(alphabet())}  # seed-independent rank of an event
-    k0 = X._h(m.canon(m.init()))
+    k0 = X._h(m.canon(X.rebuild(m, list(prefix))))
     seen = {k0}
-    frontier = [((), None)]
+    frontier = [(tuple(prefix), None)]
     stats = collections.Counter()
     agg = {}
     outcomes = set()
@@ -1145,12 +1146,15 @@ def _report(ctx, agg, part):
 
 
 LOOP_VARIANTS = ("lonely", "late", "breakup", "breakup_cpm", "lost", "leave")
+PASSIVE_PREFIX = (("join", "adv"), ("tick", D_JOIN), ("update",), ("rx", "info", "L", "dict"))
 
 
 def run(ctx):
     thorough = ctx.tier == "thorough"
     depth = 8 if thorough else 6
-    horizon = depth * max(STEPS)
+    extra = 6 if thorough else 5
+    horizon = depth * max(STEPS)                                   # longest history of each exploration, in ticks
+    horizon_p = (len(PASSIVE_PREFIX) + extra) * max(STEPS)
     durs = V.lattice_selfcheck()
     V.coder()                                   # compile once, inherited by the forked workers
 
@@ -1184,6 +1188,9 @@ def run(ctx):
         res_s = pool.imap_unordered(_job_sweep, jobs_s)
         tot, stats, agg_a = level_bfs(pool, ctx.seed, depth, horizon)
         _report(ctx, agg_a, "A")
+        # deeper below the first passive state (reached after 4 events): leave / leader-lost / re-join flows
+        tot_p, stats_p, agg_p = level_bfs(pool, ctx.seed, extra, horizon_p, prefix=PASSIVE_PREFIX)
+        _report(ctx, agg_p, "A")
         for (names, variant), r, st, agg in res_b:
             label = "B:%s:%s" % ("".join(names), variant)
             b_states += r.states
@@ -1204,26 +1211,34 @@ def run(ctx):
                 rec["part"] = "B:sweep"
                 ctx.violation(rec, replay=dict(part="B:sweep", sweep=where))
     digests.sort()
+    digests.insert(0, ("A:passive+%d" % extra, tot_p.digest()))
     digests.insert(0, ("A", tot.digest()))
+    ctx.parts["A:passive+%d" % extra] = dict(
+        prefix=[list(e) for e in PASSIVE_PREFIX], states=tot_p.states, transitions=tot_p.transitions, depth_bound=extra,
+        pruned=tot_p.pruned, xchecks=tot_p.xchecks, passive_states_probed=stats_p.get("passive_states", 0),
+        probes=stats_p.get("probes", 0), states_per_depth={str(k): v for k, v in sorted(tot_p.depth_hist.items())})
+    union = tot.hashes | tot_p.hashes
     n_alpha = len(alphabet())
     ctx.parts["A"] = dict(states=tot.states, transitions=tot.transitions, max_depth=tot.max_depth, depth_bound=depth,
                           pruned=tot.pruned, xchecks=tot.xchecks, passive_states_probed=stats.get("passive_states", 0),
                           probes=stats.get("probes", 0), outcomes=len(tot.outcomes), alphabet=n_alpha,
                           states_per_depth={str(k): v for k, v in sorted(tot.depth_hist.items())})
     ctx.parts["B:sweep"] = dict(evaluations=sweep_n, windows={k: v + 1 for k, v in SWEEPS.items()})
+    a_trans = tot.transitions + tot_p.transitions
     ctx.coverage.update(
-        states=tot.states + b_states, transitions=tot.transitions + b_trans + sweep_n,
-        traces_validated_against_impl=tot.transitions + b_trans + sweep_n,
-        replay_crosschecks=tot.xchecks + b_x, probes_executed=stats.get("probes", 0),
-        pruned=tot.pruned + sum(p.get("pruned", 0) for k, p in ctx.parts.items() if k.startswith("B:") and "pruned" in p),
-        distinct_outcomes=len(tot.outcomes) + len(outcomes_b), exhaustive=bool(b_complete),
-        caps=[("A", f"depth {depth}")], state_digests=digests,
+        states=len(union) + b_states, transitions=a_trans + b_trans + sweep_n,
+        traces_validated_against_impl=a_trans + b_trans + sweep_n,
+        replay_crosschecks=tot.xchecks + tot_p.xchecks + b_x, probes_executed=stats.get("probes", 0) + stats_p.get("probes", 0),
+        pruned=tot.pruned + tot_p.pruned + sum(p.get("pruned", 0) for k, p in ctx.parts.items() if k.startswith("B:") and "pruned" in p),
+        distinct_outcomes=len(tot.outcomes | tot_p.outcomes) + len(outcomes_b), exhaustive=bool(b_complete),
+        caps=[("A", f"depth {depth}"), ("A:passive", f"prefix {len(PASSIVE_PREFIX)} + depth {extra}")], state_digests=digests,
         vams_emitted=stats_b.get("vams_emitted", 0), vams_delivered=stats_b.get("delivered", 0),
         complete_runs=stats_b.get("complete_runs", 0), emission_instants=sweep_n,
         samples=(tot.samples[:2] + samples[:1]) or [[list(e) for e in probe_hist]],
         explanation=("A: every transition is one call into the real VBSClusteringManager (command, update, on_received_vam "
                      "with a hand-built dict or with the output of the real VAM coder, or a clock step); all histories over "
-                     f"the {n_alpha}-event alphabet up to depth {depth} from the initial state, states merged by "
+                     f"the {n_alpha}-event alphabet up to depth {depth} from the initial state and up to depth {extra} below the first "
+                     "passive state (join, 3 s, update, leader's cluster VAM), states merged by "
                      "a canonical projection (ages on the 50 ms lattice); probes are executed on copies of every distinct "
                      "passive state. B: every order of location callbacks and deliveries inside each stage of the scripted "
                      "scenarios over complete VRUAwarenessService objects; graphs closed (run to the end of the script)."),
